@@ -1436,3 +1436,9 @@ val text_upto : cell list list -> cell list list -> nat -> nat -> bool
 val return_text_ok : cell list list -> cell list list -> bool
 
 val holds_C16_return_text : vt -> func -> vt -> bool
+
+val kf1_restorable : term -> bool
+
+val kf1_C11_narrow : term -> bool
+
+val kf3b_C11 : term -> bool
